@@ -183,7 +183,7 @@ CMR_ERROR recognizeGraphic(
     if (outputTreeFileName)
     {
       // TODO: implement
-      assert(!"NOT IMPLEMENTED");
+      fprintf(stderr, "Error: writing the spanning tree (option -T) is not implemented.\n");
       exit(EXIT_FAILURE);
     }
 
@@ -279,7 +279,7 @@ CMR_ERROR computeGraphic(
   if (inputTreeFileName)
   {
     // TODO: implement
-    assert(!"NOT IMPLEMENTED");
+    fprintf(stderr, "Error: reading a tree (option -T) is not implemented.\n");
     return EXIT_FAILURE;
   }
 
